@@ -30,6 +30,10 @@ class _Rewrite(ast.NodeTransformer):
                     generators=[ast.comprehension(target=ast.Name(var.id, ast.Store()), iter=ast.Call(ast.Name("range", ast.Load()), [lo, hi], []), ifs=[], is_async=0)],
                 )
                 return ast.Call(ast.Name("all" if n == "forall" else "any", ast.Load()), [gen], [])
+            if n == "forall_atoms" and len(node.args) == 2:
+                var, body = node.args
+                gen = ast.GeneratorExp(elt=body, generators=[ast.comprehension(target=ast.Name(var.id, ast.Store()), iter=ast.Name("__atoms", ast.Load()), ifs=[], is_async=0)])
+                return ast.Call(ast.Name("all", ast.Load()), [gen], [])
             if n == "implies" and len(node.args) == 2:
                 return ast.BoolOp(ast.Or(), [ast.UnaryOp(ast.Not(), node.args[0]), node.args[1]])
             if n == "iff" and len(node.args) == 2:
@@ -113,6 +117,12 @@ class Monitor:
         e["ntokens"] = lambda s: len(s.tokens)
         e["strfun"] = lambda name, *a: st.getLines(*a) if name == "GetLines" else NotImplemented
         e["aslist"] = lambda x: [x] if isinstance(x, str) else list(x)
+        e["cache_get"] = lambda cache, c: (cache.get(c, []) or []) if cache is not None else []
+        atoms = {"", "zz"}
+        for v in args.values():
+            for rule in getattr(v, "__rules__", []) or []:
+                atoms.update(rule.alt)
+        e["__atoms"] = sorted(atoms)
         e["max"], e["min"], e["len"], e["range"], e["all"], e["any"], e["bool"] = max, min, len, range, all, any, bool
         if have_result:
             e["result"] = result
